@@ -8,14 +8,23 @@
 //!   → `Display` → `parse` → compared FIELD-WISE with the generated value; print→parse→print fixpoint;
 //!   independent line scanner for the placement of media-level lines; and the reference rendering
 //!   (`refmodel::sdp`) of the same value must parse to the same value.
-//!   Generated (gen/sdp.rs): every field of the public structs over its grammar. Two dimensions are
+//!   Generated (gen/sdp.rs): every field of the public structs over its grammar. Four dimensions are
 //!   generated on purpose because a text-level parse→print→parse check cannot see them (the first
 //!   parse already normalises): (1) white-space-delimited tokens (origin user/id/version, candidate
 //!   transport/type/extension pairs) and free text (s=, attribute values, fmtp) containing code
 //!   points >= U+0080 that Unicode — but not ASCII/SDP — calls white space, or that are invisible,
 //!   at the start, inside and at the end; (2) every token with a catch-all variant (`Other` proto,
 //!   `Ext` suite, `Ext` session parameter, unknown attribute name, candidate extension key) as a
-//!   NEAR MISS of a well-known token: other letter case, proper prefix/suffix, extended.
+//!   NEAR MISS of a well-known token: other letter case, proper prefix/suffix, extended;
+//!   (3) host names that look like address literals: a dotted quad held as `IP6FQDN` (`IN IP6
+//!   192.0.2.1` — the tag, not the text, decides the variant; also with the IPv6 `/<num>` suffix in a
+//!   connection), near misses of IPv4 literals under both tags and in candidates, near misses of IPv6
+//!   literals where `:` is a host character; (4) REPEATED list elements: one element of any list of a
+//!   media section / the session (fmts, bandwidth, rtpmap, fmtp, candidates, crypto lines + their keys
+//!   and session parameters, candidate extension pairs, unknown attributes, ice-options, whole media
+//!   sections, one candidate in two sections) a second time, adjacent or not, verbatim or as a near
+//!   duplicate (a candidate differing in exactly one field; elements sharing only their key) — the
+//!   lists are `Vec`s, n elements printed must come back as the same n elements in the same order.
 //!   Oracle: equality with the generated value, nothing else. Not asserted: what a token that is
 //!   spelled exactly like a well-known one but held in the catch-all variant parses to; whether
 //!   case-variants of media types (no catch-all variant exists) are accepted; control characters
@@ -707,6 +716,70 @@ fn classify_value(c: &SdpCase, out: &mut CaseOut) -> bool {
             _ => {}
         }
     }
+    // host names that look like address literals, per place a tagged address can stand in
+    {
+        let mut sites: Vec<(u8, &TaggedC)> = vec![(0, &c.origin.address)];
+        if let Some(conn) = &c.connection {
+            sites.push((1, &conn.address));
+        }
+        for m in &c.media {
+            if let Some(conn) = &m.connection {
+                sites.push((1, &conn.address));
+            }
+            if let Some(TaggedC::Ip4Fqdn(_) | TaggedC::Ip6Fqdn(_)) = m.rtcp.as_ref().and_then(|r| r.address.as_ref()) {
+                sites.push((2, m.rtcp.as_ref().unwrap().address.as_ref().unwrap()));
+            }
+        }
+        for (site, t) in sites {
+            let (six, shape) = match t {
+                TaggedC::Ip4Fqdn(h) => (false, host_shape(h)),
+                TaggedC::Ip6Fqdn(h) => (true, host_shape(h)),
+                _ => continue,
+            };
+            match (six, shape) {
+                (true, Some("ip4-literal")) => {
+                    out.class(["origin:ip6fqdn=ip4-literal", "connection:ip6fqdn=ip4-literal", "rtcp:ip6fqdn=ip4-literal"][site as usize]);
+                    interesting = true;
+                }
+                (true, Some("near-ip6-literal")) => out.class("addr:ip6fqdn-near-ip6-literal"),
+                (true, Some(_)) => out.class("addr:ip6fqdn-near-ip4-literal"),
+                (false, Some(_)) => out.class("addr:ip4fqdn-near-ip4-literal"),
+                _ => {}
+            }
+        }
+        for conn in c.connection.iter().chain(c.media.iter().filter_map(|m| m.connection.as_ref())) {
+            if matches!(&conn.address, TaggedC::Ip6Fqdn(h) if host_shape(h) == Some("ip4-literal")) && conn.num.is_some() {
+                out.class("connection:ip6fqdn=ip4-literal+num");
+            }
+        }
+    }
+    // repeated list elements (computed from the value, not from the generator's op)
+    fn has_equal<T: PartialEq>(v: &[T]) -> bool {
+        (0..v.len()).any(|i| (i + 1..v.len()).any(|j| v[i] == v[j]))
+    }
+    fn has_equal_apart<T: PartialEq>(v: &[T]) -> bool {
+        (0..v.len()).any(|i| (i + 2..v.len()).any(|j| v[i] == v[j] && v[i + 1] != v[i]))
+    }
+    fn same_key<T, K: PartialEq>(v: &[T], key: impl Fn(&T) -> K) -> bool
+    where
+        T: PartialEq,
+    {
+        (0..v.len()).any(|i| (i + 1..v.len()).any(|j| v[i] != v[j] && key(&v[i]) == key(&v[j])))
+    }
+    if has_equal(&c.bandwidth) || has_equal(&c.ice_options) || has_equal(&c.attributes) {
+        out.class("repeat:session-level-list-element");
+    }
+    if has_equal(&c.media) {
+        out.class("repeat:equal-media-sections");
+        interesting = true;
+    }
+    {
+        let all: Vec<(usize, &CandC)> = c.media.iter().enumerate().flat_map(|(i, m)| m.candidates.iter().map(move |x| (i, x))).collect();
+        if (0..all.len()).any(|i| (i + 1..all.len()).any(|j| all[i].0 != all[j].0 && all[i].1 == all[j].1)) {
+            out.class("repeat:candidate-in-two-sections");
+            interesting = true;
+        }
+    }
     if !c.attributes.is_empty() {
         out.class("session:unknown-attr");
     }
@@ -843,6 +916,73 @@ fn classify_value(c: &SdpCase, out: &mut CaseOut) -> bool {
         }
         if m.end_of_candidates {
             out.class("media:end-of-candidates");
+        }
+        if has_equal(&m.candidates) {
+            out.class("repeat:candidate");
+            interesting = true;
+            if has_equal_apart(&m.candidates) {
+                out.class("repeat:candidate-not-adjacent");
+            }
+        }
+        {
+            let cand_fields_differing = |a: &CandC, b: &CandC| -> usize {
+                [
+                    a.foundation != b.foundation,
+                    a.component != b.component,
+                    a.transport != b.transport,
+                    a.priority != b.priority,
+                    a.address != b.address,
+                    a.port != b.port,
+                    a.typ != b.typ,
+                    a.rel_addr != b.rel_addr,
+                    a.rel_port != b.rel_port,
+                    a.unknown != b.unknown,
+                ]
+                .iter()
+                .filter(|x| **x)
+                .count()
+            };
+            let l = &m.candidates;
+            if (0..l.len()).any(|i| (i + 1..l.len()).any(|j| cand_fields_differing(&l[i], &l[j]) == 1)) {
+                out.class("repeat:candidate-one-field-differs");
+                interesting = true;
+            }
+        }
+        if has_equal(&m.fmts) {
+            out.class("repeat:fmt");
+        }
+        if has_equal(&m.bandwidth) || has_equal(&m.rtpmaps) || has_equal(&m.fmtps) || has_equal(&m.attributes) {
+            out.class("repeat:bandwidth/rtpmap/fmtp/attribute");
+            interesting = true;
+        }
+        if has_equal(&m.crypto) {
+            out.class("repeat:crypto-line");
+            interesting = true;
+        }
+        if m.crypto.iter().any(|cr| has_equal(&cr.keys) || has_equal(&cr.params)) {
+            out.class("repeat:crypto-key/param");
+        }
+        if m.candidates.iter().any(|x| has_equal(&x.unknown)) {
+            out.class("repeat:candidate-extension-pair");
+        }
+        if same_key(&m.rtpmaps, |r| r.payload)
+            || same_key(&m.fmtps, |f| f.format)
+            || same_key(&m.crypto, |cr| cr.tag)
+            || same_key(&m.bandwidth, |b| b.type_.clone())
+            || same_key(&m.attributes, |a| a.name.clone())
+        {
+            out.class("repeat:same-key-different-content");
+        }
+        for cand in &m.candidates {
+            for a in [Some(&cand.address), cand.rel_addr.as_ref()].into_iter().flatten() {
+                if let UntaggedC::Fqdn(h) = a {
+                    match host_shape(h) {
+                        Some("near-ip6-literal") => out.class("candidate:fqdn-near-ip6-literal"),
+                        Some(_) => out.class("candidate:fqdn-near-ip4-literal"),
+                        None => {}
+                    }
+                }
+            }
         }
         if !m.crypto.is_empty() {
             out.class("media:crypto");
@@ -1304,20 +1444,27 @@ pub fn property() -> Property {
         rule: "roundtrip: a generated SessionDescription value is non-trivial when it has >=1 media section and at least one of: >=2 \
                different sections, a candidate / crypto line / ice-options, an Other proto / unknown attribute name that is a near miss \
                of a well-known token (extends it, is a part of it, differs in letter case only), an origin / candidate token \
-               holding a non-ASCII white-space code point, a numeric field at a range edge; distinct = hash of the whole value. parse_text: non-trivial when at least one `<o|s|c|t|b|m|a>=` \
+               holding a non-ASCII white-space code point, an IP6FQDN whose text is a dotted quad, a repeated (equal, or for \
+               candidates differing in one field) element in a media-level list, two equal media sections, one candidate in two \
+               sections, a numeric field at a range edge; distinct = hash of the whole value. parse_text: non-trivial when at least one `<o|s|c|t|b|m|a>=` \
                line reaches a field parser; distinct = hash of the text. whole_token: every case (site, well-known token, suffix, \
                section, line) is non-trivial.",
         assumptions: vec![
             "values stay inside each field's documented grammar (see gen/sdp.rs module doc): no empty key list / FecKey([]), no fmtp \
              params with leading ASCII blank, unknown attributes / Ext params / Other tokens never spelled exactly (byte for byte) \
-             like a known one — a different letter case IS a different token —, IP4 connection `num` only with `ttl`, FQDNs \
-             are not IP literals",
+             like a known one — a different letter case IS a different token —, IP4 connection `num` only with `ttl`, the host \
+             text of IP4FQDN is never an IPv4 literal, of IP6FQDN never an IPv6 literal, of a candidate Fqdn never a literal of \
+             either family (the API holds those as IP4 / IP6 / IpAddress); a dotted quad under the IP6 tag IS generated, it can \
+             only be IP6FQDN",
+            "lists are ordered multisets: equal elements may occur more than once in every Vec of the public structs and each \
+             occurrence is printed as its own line / token",
             "SDP fields are separated by ASCII blanks only (RFC 8866 SP); code points >= U+0080, including the ones Unicode \
              classifies as white space, are content of non-ws-string tokens and of text fields",
             "the reference rendering uses RFC 8866/8839/4568 syntax with single blanks, the same syntax ezk's own unit tests use",
         ],
         explanation: "Sampled, not exhaustive: 16 independent proptest shards per sub-check. Values are drawn over every field of the \
-                      public SessionDescription/MediaDescription structs (0..4 media sections, 0..n of each attribute, integers over \
+                      public SessionDescription/MediaDescription structs (0..4 media sections, 5 when one is repeated; 0..n of each attribute \
+                      incl. n equal ones and near duplicates; host names incl. look-alikes of address literals; integers over \
                       their full range with weight on 0/MAX/powers of two; tokens with non-ASCII white space / invisible code points; \
                       catch-all tokens as case variants, prefixes, suffixes and extensions of every well-known token); texts are arbitrary UTF-8, line-shaped ASCII, \
                       grammar-derived lines with numbers up to 41 digits and 2^n with n<=99, and 1..4 char/line/number mutations of \
